@@ -57,6 +57,9 @@ def run(ctx, chk):
     # R2 sharing granularity: the registry hands one Settings object to two calls only when their settings are equal
     from .c03 import registry_key_rule
     registry_key_rule(ctx, chk, "C20.R2")
+    # R3 precondition of the try_previous_locales exclusion: the library's own parsers never turn it on
+    from .c13 import previous_locales_flag_rule
+    previous_locales_flag_rule(ctx, chk, "C20.R3")
     chk.assume("thread-local and lock idioms are recognised syntactically: `with <name containing lock>`")
 
 
